@@ -407,7 +407,16 @@ func C13(run *core.Run) {
 			run.Violate(fmt.Sprintf("websocket:stalled peer not dropped while the relay answers refused frames (ping=%v)", ping), detail, map[string]any{"send_timeout_ms": 300, "ping": ping.String()})
 		}
 	}
-	run.Set("rule", "Session.tla models every goroutine as a stage (wait for a message or the context; hand it on with a select on the context) and the compositions as stage graphs; TLC proves Termination ((cancelled or closed) leads to all stages done, under weak fairness) for middleware(handler), router, merge of two children and middleware(merge), with a draining and with a stalled peer, ended by cancel and by closing the inbound channel, and shows that a stage sending without the context violates it. On the real code every composition (default, cache, router, SQLite, merge of 2 and of 3, bare and under middleware stacks incl. Prometheus + unique filters) runs a 9-message history cut at every position, ended by cancel (draining and stalled peer) or by closing recv (draining): ServeNostr returns within 2 s, the goroutines created by mocrelay are gone, the router registry is empty, the gauges are back; each observation is one line judged by TLC (SessionTrace). WebSocket: a client that never reads, a handler emitting 64 KiB messages, SendTimeout 300 ms, ping 0 / 50 ms / 10 s: the handler's context must end within 5 s. distinct_nontrivial = distinct (composition, cut, ending, peer) cases")
+	// and for short replies of the handler (EOSE / CLOSED / COUNT to a flood of short requests, small kernel buffers)
+	for _, ping := range []time.Duration{0, 200 * time.Millisecond} {
+		ended, detail := wsStalledPeerShortReplies(300*time.Millisecond, ping)
+		run.Add("websocket_runs", 1)
+		distinct.Add(fmt.Sprint("ws-short", ping))
+		if !ended {
+			run.Violate(fmt.Sprintf("websocket:stalled peer not dropped while every reply is a short frame (ping=%v)", ping), detail, map[string]any{"send_timeout_ms": 300, "ping": ping.String()})
+		}
+	}
+	run.Set("rule", "Session.tla models every goroutine as a stage (wait for a message or the context; hand it on with a select on the context) and the compositions as stage graphs; TLC proves Termination ((cancelled or closed) leads to all stages done, under weak fairness) for middleware(handler), router, merge of two children and middleware(merge), with a draining and with a stalled peer, ended by cancel and by closing the inbound channel, and shows that a stage sending without the context violates it. On the real code every composition (default, cache, router, SQLite, merge of 2 and of 3, bare and under middleware stacks incl. Prometheus + unique filters) runs a 9-message history cut at every position, ended by cancel (draining and stalled peer) or by closing recv (draining): ServeNostr returns within 2 s, the goroutines created by mocrelay are gone, the router registry is empty, the gauges are back; each observation is one line judged by TLC (SessionTrace). WebSocket: a client that never reads, a handler emitting 64 KiB messages, SendTimeout 300 ms, ping 0 / 50 ms / 10 s: the handler's context must end within 5 s; the same with a silent handler and a flood of refused frames (long NOTICE replies) and with the default handler and a flood of short requests over 4 KiB kernel buffers (every reply a short frame). distinct_nontrivial = distinct (composition, cut, ending, peer) cases")
 	run.Set("evaluations", run.Get("sessions")+run.Get("websocket_runs"))
 	run.Set("distinct_nontrivial", distinct.Len())
 	run.Assume = append(run.Assume, "liveness is proved of the model only; on the code 'promptly' is the bounded-time observation (2 s) at each enumerated cut",
